@@ -2,7 +2,7 @@
    Only statements, closed by [exact], and Print Assumptions. *)
 From Coq Require Import List NArith ZArith Bool.
 Import ListNotations.
-From GY Require Import Model.Indent Spec.C20 Proofs.IndentProofs.
+From GY Require Import Model.Indent Spec.C20 Proofs.IndentProofs Proofs.IndentStackProofs.
 Local Open Scope Z_scope.
 
 (* T0: the one-shot function is the character-level rendering: the prefix before the first
@@ -43,6 +43,37 @@ Theorem C20_tagged_sound : forall prefix s b,
   map snd (filter fst (tind_sm prefix s b)) = b.
 Proof. intros. split; [apply tind_erase | apply tind_caller]. Qed.
 
+(* T3: the underlying writer may itself be an indenting writer (the printers of the library
+   stack one per nesting level).  Whatever the interleaving of successful writes to the two
+   writers, and wherever in the history the upper writer is created or re-created, the bottom
+   writer receives the one-shot rendering, by the lower prefix, of exactly the bytes the lower
+   writer was handed ([stream]: direct writes, and the upper writer's renderings). *)
+Theorem C20_stack : forall p1 p2 w2 ops, Forall op_ok ops ->
+  run2 p1 p2 (NewWriter p1) w2 ops = (results ops, Bytes p1 (concat (stream p2 w2 ops))).
+Proof. exact run2_ok. Qed.
+
+(* in particular: a head through the lower writer (which may end mid-line), any chunking of a
+   text through an upper writer created at that point, a tail through the lower writer *)
+Theorem C20_stack_nested : forall p1 p2 w2 heads chunks tails,
+  run2 p1 p2 (NewWriter p1) w2
+       (map (fun c => OLower c None) heads ++ ONew :: map (fun c => OUpper c None) chunks
+        ++ map (fun c => OLower c None) tails)
+  = (map (fun c => (Z.of_nat (length c), false)) (heads ++ chunks ++ tails),
+     Bytes p1 (concat heads ++ Bytes p2 (concat chunks) ++ concat tails)).
+Proof. exact stacked_head_upper_tail. Qed.
+
+(* a short write through the stack is accounted level by level *)
+Theorem C20_stack_short : forall p1 p2 partial1 partial2 buf n,
+  p1 <> [] -> p2 <> [] -> buf <> [] ->
+  let joined := ind_sm p2 (negb partial2) buf in
+  let t1 := tind_sm p1 (negb partial1) joined in
+  let t2 := tind_sm p2 (negb partial2) buf in
+  let '(res, out, _) := WriteUpper p1 p2 (Ind partial1) (Ind partial2) buf (Some n) in
+  out = firstn (Z.to_nat n) (map snd t1) /\
+  res = (caller_count (caller_count n t1) t2, true) /\
+  0 <= fst res <= Z.of_nat (length buf).
+Proof. exact WriteUpper_short. Qed.
+
 (* D44: the accounting function as it stood at the pinned commit violates T2. *)
 Theorem C20_short_old_refuted : exists prefix lines n,
   actualWrittenSize_old n (Z.of_nat (length prefix)) lines <> caller_count n (tjoin lines prefix).
@@ -55,4 +86,9 @@ Example C20_chunks_ex :
 Proof. vm_compute. reflexivity. Qed.
 Example C20_short_ex :
   w_n (Write [62;32]%N (Ind true) [99;100;101]%N (Some 2)) = 2.
+Proof. vm_compute. reflexivity. Qed.
+Example C20_stack_ex :
+  run2 [65;62]%N [66;62]%N (NewWriter [65;62]%N) (NewWriter [66;62]%N)
+       [OLower [104]%N None; ONew; OUpper [120;10;121]%N None; OLower [10]%N None]
+  = ([(1,false);(3,false);(1,false)], [65;62;104;66;62;120;10;65;62;66;62;121;10]%N).
 Proof. vm_compute. reflexivity. Qed.
